@@ -255,13 +255,23 @@ impl World for W7 {
             ignore_path_and_query_case: rng.coin(),
             always_match_any_host: rng.coin(),
             ignore_marketing_query_params: rng.coin(),
+            marketing_list: crate::w1::Cfg::gen_marketing_list(rng),
         };
         let swarm = Swarm::new(rng);
         let rg = RuleGen::new(rng);
-        let n = rng.range(1, 6);
+        // one run in twelve is a large rule set in which most rules have an example that fails (accumulators of the
+        // analyses have bounds: "first ten failures")
+        let many = rng.chance(1, 12);
+        let n = if many { rng.range(11, 18) } else { rng.range(1, 6) };
         let mut rules = Vec::new();
         for k in 0..n {
             let mut r = rg.rule(rng, &format!("r{k}"), &swarm);
+            if many && rng.chance(5, 6) {
+                let exs: Vec<Value> = (0..rng.range(1, 3))
+                    .map(|_| json!({"url": rng.pick_str(&["/nomatch", "https://example.com/other", "/a", "/blog/x"]), "must_match": rng.chance(5, 6), "unit_ids_applied": [format!("unit-{k}")]}))
+                    .collect();
+                r["examples"] = json!(exs);
+            }
             if rng.chance(1, 3) {
                 r["source"]["path"] = json!(rng.pick_str(&["/blog/@slug", "/@slug"]));
                 let regex = match rng.below(3) {
@@ -278,6 +288,10 @@ impl World for W7 {
             }
             rules.push(r);
         }
+        let heavy_rx = rules.iter().any(|r| {
+            let m = r["markers"].to_string();
+            m.contains("{9") || m.contains("{1000")
+        });
         let mut requests = Vec::new();
         for _ in 0..rng.range(2, 5) {
             let (hh, hs, hm) = (hostile(rng), hostile(rng), hostile(rng));
@@ -316,7 +330,13 @@ impl World for W7 {
             rules,
             requests,
             examples: (0..rng.range(1, 3)).map(|_| hostile_example(rng)).collect(),
-            max_hops: *rng.pick(&[0u8, 1, 3, 255]),
+            // a rule set with an expression that takes tens of milliseconds to build is not followed for 255 hops (the
+            // library rebuilds it for every lookup: the run would take a minute)
+            max_hops: if many || heavy_rx {
+                *rng.pick(&[0u8, 1, 3])
+            } else {
+                *rng.pick(&[0u8, 1, 3, 255])
+            },
             project_domains: rng.pick(&[vec![], vec!["example.com".to_string()], vec!["".to_string(), "é".to_string()]]).clone(),
             response_headers: (0..rng.below(3))
                 .map(|_| (rng.pick_str(&["Content-Type", "Content-Encoding", "Location", ""]), rng.pick_str(&["text/html", "gzip", "br", "", "é", "deflate, gzip"])))
